@@ -23,7 +23,7 @@ package sqlittle
 //@   ensures [counted] schema_calls == old(schema_calls) + 1
 //@   ensures [built-now] err == nil ==> fresh(r0)
 //@   props C06 C10 C05 C08
-//@   modifies * -M:S_db_KeyCol -M:S_sqlittle_columnIndex hdr_valid hdr_ps hdr_cookie jr_pos peer_state created
+//@   modifies * -M:S_db_KeyCol -M:S_sqlittle_columnIndex hdr_valid hdr_ps hdr_cookie jr_pos peer_state schema_calls last_schema
 //@   requires db != nil
 //@   requires [locked] lk_shared
 //@   ensures err == nil ==> r0 != nil
@@ -55,6 +55,7 @@ package sqlittle
 //@ func (*sqlittle.DB).SelectRowid
 //@   props C06 C08
 //@   ensures-before-exit [current-schema] r1 == nil ==> schema_calls == old(schema_calls) + 1
+//@   ghost-exit sr_failed = old(sr_failed)
 //@   ghost-exit schema_calls = old(schema_calls)
 //@   ghost-exit last_schema = old(last_schema)
 //@   modifies * -M:S_sqlittle_columnIndex lk_shared lk_pending peer_state cc_now hdr_valid hdr_ps hdr_cookie jr_pos
